@@ -439,6 +439,8 @@ def mutex_lock(ex, st, th, a):
     _held(st, th.tid).add(m)
     if ex.race_detect:
         ex.vc_acquire(st, th.tid, ('m', m))
+    if ex.preempt_bound and ex.preempt_in_cs:
+        st.preempt_pending = True
     return 0
 
 
@@ -449,6 +451,8 @@ def mutex_trylock(ex, st, th, a):
         return 16
     st.mutex[m] = th.tid
     _held(st, th.tid).add(m)
+    if ex.race_detect:
+        ex.vc_acquire(st, th.tid, ('m', m))
     return 0
 
 
